@@ -219,10 +219,10 @@ pub fn key_text<V: HasKey<K>, K: KeyType>(k: &Key<V, K>) -> String {
     k.expose_key().to_string()
 }
 pub fn local_key<B: Backend>(b: &[u8; 32]) -> LocalKey<B> {
-    key_from_bytes::<B, Local>(b).expect("32-byte local key")
+    key_from_bytes::<B, Local>(b).unwrap_or_else(|e| crate::util::fatal(B::NAME, &format!("valid-local-key-rejected:{}", err_kind(&e)), serde_json::json!({"key": crate::util::hx(b)})))
 }
 pub fn secret_key<B: Backend>(b: &[u8]) -> SecretKey<B> {
-    key_from_bytes::<B, Secret>(b).expect("generated secret key must decode")
+    key_from_bytes::<B, Secret>(b).unwrap_or_else(|e| crate::util::fatal(B::NAME, &format!("valid-secret-key-rejected:{}", err_kind(&e)), serde_json::json!({"key": crate::util::hx_short(b), "note": "a secret key the harness generated itself (in range, matching halves) was refused; earlier operations on this thread may have left state behind"})))
 }
 
 #[derive(Clone, Copy, PartialEq, Eq, Debug)]
